@@ -13,6 +13,15 @@ Decided by TLC on spec/isa/RWInfo.tla, bound to the code pointwise (RWInfoObs.tl
         what changed and which inputs matter; TLC checks  changed within reported writes,  depends within reported reads,  no #UD with the
         reported features.  The same records are compared with the DB-derived record ("DBV" lines): that validates RWInfo.tla and the
         database against hardware and tells DB-annotation errors from table errors.
+ sweep dimensions (harness/rwinfo.cpp, field "dim"): base = the assignments above; imm = for every form with an immediate the values
+        0, 0xFF, -1, 0x11*n, 0x0F, 0xF0, 0x55, 0xAA, 0x5A, random x {no mask, {k} merge, {k}{z}} x {distinct, all-same} (instruction-specific special
+        cases of query_rw_info are selected by the immediate, e.g. the vpternlog truth tables that ignore the destination); bid = the boundary
+        ids 0 7 8 15 16 17 31 in every vector operand position (VSIB index included) one at a time, the other operands low.
+        Every request is also EMITTED by x86::Assembler; "executes on any CPU that has the reported features" is judged against the encoding
+        actually produced (EVEX 62h / VEX C4h C5h): the reported set must cover the EVEX resp. VEX row of this operand signature.
+        Requests with a vector id >= 16 whose signature has no EVEX row (validator leniency, C01/C13) are not forms of the database: skipped.
+        Host leg: a byte of the perturbed register that merely shows the old value through (merge-masking, partial / conditional write) is a
+        dependency exactly when that byte is REPORTED as written - so "destination not read" under {k} merge-masking is refuted by two runs.
  leg 3 (AArch64 register lists)  every ldN/stN/ldNr/tbl/tbx ... row of db/isa_aarch64.json with an Nx{...} list: the report carries the run.
 
 A rejected observation is grouped under a narrow key  <clause>:<instruction>:<operand signature>[:<operand/register/flag>];
